@@ -21,3 +21,5 @@ func RandDone() {}
 func Hex(b []byte) string { return "" }
 
 func BytesDigest(b []byte) string { return "" }
+
+func Name(salt, seed []byte, name string, out []byte) {}
